@@ -335,3 +335,60 @@ Proof.
   cbn [rd_key]. replace (is_const _) with false by (vm_compute; reflexivity).
   exists 201%positive. split; [reflexivity|]. exists [97; 0]. split; (split; [set_solver|vm_compute; reflexivity]).
 Qed.
+
+(** * Non-vacuity at heap level: a heap that encodes [ex_F] (the canonical link and data maps of the forest,
+      the string heap [ex_St], every node and key block live and owned by the library, the three name
+      blocks live), so that the hypotheses [WF], [KeysReadable] of clauses 13, 15-17 and of the end-to-end
+      theorems (TierBridgeEndToEnd.v, TierBridgeEndToEndStr.v) hold; the Utils functions run on it *)
+Local Instance tb_ptr_eq_dec : EqDecision ptr.
+Proof. unfold ptr. apply _. Defined.
+Local Instance tb_spec_float_eq_dec : EqDecision SpecFloat.spec_float.
+Proof. solve_decision. Defined.
+Local Instance tb_ndata_eq_dec : EqDecision ndata.
+Proof. solve_decision. Defined.
+Local Instance tb_rdata_eq_dec : EqDecision rdata.
+Proof. solve_decision. Defined.
+Ltac tb_dec := apply (bool_decide_unpack _); vm_compute; exact I.
+
+Definition ex_heap : heap :=
+  mkHeap (heap_lnk_of ex_F) (heap_dat_of ex_F) ex_St
+         (list_to_map ((fun b => (b, Lib)) <$> owned ex_F))
+         (list_to_set (owned ex_F ++ [110; 111; 112]%positive))
+         1000%positive 0 default_hooks [].
+
+Lemma ex_heap_WF : WF ex_heap ex_F.
+Proof.
+  constructor.
+  - tb_dec.
+  - reflexivity.
+  - reflexivity.
+  - tb_dec.
+  - apply Forall_forall. tb_dec.
+  - apply Forall_forall. tb_dec.
+  - apply Forall_forall. tb_dec.
+  - unfold ref_ok. tb_dec.
+Qed.
+
+Lemma ex_heap_KeysReadable : KeysReadable ex_heap ex_F.
+Proof.
+  intros n b Hn. revert b. revert n Hn.
+  apply (proj1 (Forall_forall (fun n : fnode => forall b, rd_key (fn_data n) = Some b ->
+           b ∈ h_live ex_heap /\ exists s : bytes, h_str ex_heap !! b = Some s /\ existsb (Z.eqb 0) s = true) (flat ex_F))).
+  let l := eval vm_compute in (flat ex_F) in change (flat ex_F) with l.
+  repeat apply List.Forall_cons; try apply List.Forall_nil;
+    intros b Hb; vm_compute in Hb; try discriminate; injection Hb as <-;
+    (split; [tb_dec|eexists; split; [vm_compute; reflexivity|reflexivity]]).
+Qed.
+
+Lemma ex_heap_runs :
+  Forall (has_key (h_str ex_heap)) ex_members /\ is_ref ex_objd = false /\ is_ref (tdata ex_arr) = false /\
+  (exists h', detach_item_from_array (Some 4%positive) 0 ex_heap = Ret (Some 5%positive, h')) /\
+  detach_item_from_array (Some 4%positive) 2 ex_heap = Ret (None, ex_heap) /\
+  (exists h', insert_item_in_array (Some 4%positive) 1 (Some 7%positive) ex_heap = Ret (true, h')) /\
+  insert_item_in_array (Some 4%positive) 5 (Some 7%positive) ex_heap = Ret (false, ex_heap) /\
+  (exists h', cJSON_InsertItemInArray (Some 4%positive) 5 (Some 7%positive) ex_heap = Ret (true, h')) /\
+  (exists h', SortDefs.sort_object (SortDefs.sort_fuel 3) (Some 1%positive) true ex_heap = Ret (tt, h')).
+Proof.
+  split_and!; try (vm_compute; reflexivity); try (eexists; vm_compute; reflexivity).
+  apply (proj1 (proj2 (proj2 (proj2 (proj2 (proj2 (proj2 ex_hypotheses))))))).
+Qed.
